@@ -89,11 +89,11 @@ inductive RelL : List PyVal → List Cost.Shape → Prop
   | nil : RelL [] []
   | cons {v s vs ss} : Rel v s → RelL vs ss → RelL (v :: vs) (s :: ss)
 
-theorem scalar_tag (v : PyVal) (h : v.isScalar = true) : vtag v = 0 := by
-  cases v <;> simp [PyVal.isScalar] at h <;> rfl
+theorem scalar_tag (v : PyVal) (h : CostValue.isFdScalar v = true) : vtag v = 0 := by
+  cases v <;> simp [CostValue.isFdScalar] at h <;> rfl
 
-theorem scalar_nodes (v : PyVal) (h : v.isScalar = true) : v.nodes = 1 := by
-  cases v <;> simp [PyVal.isScalar] at h <;> simp [PyVal.nodes]
+theorem scalar_nodes (v : PyVal) (h : CostValue.isFdScalar v = true) : v.nodes = 1 := by
+  cases v <;> simp [CostValue.isFdScalar] at h <;> simp [PyVal.nodes]
 
 theorem relL_tags : ∀ {vs ss}, RelL vs ss → vs.map vtag = ss.map stag
   | _, _, .nil => rfl
@@ -488,10 +488,10 @@ theorem buildDict_agree {vs : List PyVal} {ss : List Cost.Shape} (h : RelL vs ss
 /-! ### The simulation relation -/
 
 /-- The descriptor lists the two models get: both `None` or both a list, and the value model's descriptors are
-scalars (`PyVal.isScalar`: no containers; in txdbus they are ints).  The cost model's descriptor NUMBERS are not related to anything: they do not
+scalars (`CostValue.isFdScalar`: no containers; in txdbus they are ints).  The cost model's descriptor NUMBERS are not related to anything: they do not
 influence control flow. -/
 def FdsRel (fc : Option (List Nat)) (fv : Code.Fds) : Prop :=
-  fc.isSome = fv.isSome ∧ ∀ l, fv = some l → ∀ v ∈ l, v.isScalar = true
+  fc.isSome = fv.isSome ∧ ∀ l, fv = some l → ∀ v ∈ l, CostValue.isFdScalar v = true
 
 /-- a per-type call: same outcome, same number of bytes, related value. -/
 structure AgreeOne (off : Nat) (r : Cost.Out) (c : Code.URes) : Prop where
@@ -617,7 +617,7 @@ theorem one_sim (hfds : FdsRel fc fv) (f : Nat) (hSeq : PSeq fc fv data le f) (h
               cases fv with
               | none => simp at hs
               | some l =>
-                have hsc : ((l[Cost.uval le (Cost.slice data off (off + need))]?).getD PyVal.none).isScalar = true := by
+                have hsc : CostValue.isFdScalar ((l[Cost.uval le (Cost.slice data off (off + need))]?).getD PyVal.none) = true := by
                   cases hi : l[Cost.uval le (Cost.slice data off (off + need))]? with
                   | none => rfl
                   | some x => exact hl l rfl x (List.mem_of_getElem? hi)
@@ -1006,7 +1006,7 @@ theorem sim_unmarshal (fc : Option (List Nat)) (fv : Code.Fds) (hfds : FdsRel fc
     ((all_sim fc fv data le hfds fuelC).2.1 fuelV sig.length sig off (Nat.le_refl _) hne hd)
 
 /-- Descriptor lists of the value model whose entries are scalars (in txdbus: ints). -/
-def FdsPlain (fv : Code.Fds) : Prop := ∀ l, fv = some l → ∀ v ∈ l, v.isScalar = true
+def FdsPlain (fv : Code.Fds) : Prop := ∀ l, fv = some l → ∀ v ∈ l, CostValue.isFdScalar v = true
 
 theorem fdsPlain_none : FdsPlain none := by intro l h; cases h
 
